@@ -552,6 +552,11 @@ def cmp(op, a, b):
     if op in ("is", "isnot", "eq", "ne") and isinstance(a, T) and isinstance(b, T) and a.op == "ext" and b.op == "ext":
         same = a.args[0] == b.args[0]
         return same if op in ("is", "eq") else not same
+    if op in ("eq", "ne", "is", "isnot") and (isinstance(a, bool) or isinstance(b, bool)):
+        k, other = (a, b) if isinstance(a, bool) else (b, a)
+        if isinstance(other, T) and other.ty == BOOL:  # (c == True) is c, (c == False) is not c
+            pos = (k is True) == (op in ("eq", "is"))
+            return other if pos else lnot(other)
     if op in ("is", "isnot") and (a is None or b is None):
         other = b if a is None else a
         if isinstance(other, T) and other.op in _NEVER_NONE:
@@ -675,11 +680,16 @@ def lor(items):
     return T("lor", out, BOOL)
 
 
+_EMPTY = {BYTES: b"", STR: ""}
+
+
 def ite(c, a, b):
     if not isinstance(c, T):
         return a if c else b
     if veq(a, b):
         return a
+    if isinstance(a, T) and a.ty in _EMPTY and b == _EMPTY[a.ty] and type(b) is type(_EMPTY[a.ty]) and c.op == "truth" and veq(_unfz1(c.args[0]), a):
+        return a  # `x or b""` for a bytes-valued x is x
     if c.op == "not":
         return ite(c.args[0], b, a)
     if a is True and b is False:
@@ -921,3 +931,133 @@ def first_diff(a, b, path="", depth=0):
     if len(sb) > 300:
         sb = sb[:300] + "…"
     return "at %s: found %s ; expected %s" % (path or "/", sa, sb)
+
+
+# ----------------------------------------------------------------------------- bit-vector normal form (on demand)
+def _pow2(n):
+    return isinstance(n, int) and not isinstance(n, bool) and n > 0 and n & (n - 1) == 0
+
+
+def _is_byte(v):
+    """A term whose value is known to lie in [0, 255]: an element of a bytes value."""
+    if isinstance(v, T) and v.op == "idx":
+        return tyof(_unfz1(v.args[0])) == BYTES
+    return False
+
+
+def _bv_components(v, memo):
+    """v as an OR of components ((atom & mask) >> r) << l  ->  list of (atom, mask | None, r, l), or None if v is not a
+    pure shift/or expression (then it is an atom itself)."""
+    if isinstance(v, bool) or not isinstance(v, (int, T)):
+        return None
+    if isinstance(v, int):
+        return [] if v == 0 else [(v, None, 0, 0)]
+    op = v.op
+    if op == "bor":
+        out = []
+        for x in v.args:
+            c = _bv_components(_unfz1(x), memo)
+            if c is None:
+                return None
+            out.extend(c)
+        return out
+    if op in ("shl", "shr") and isinstance(v.args[1], int) and not isinstance(v.args[1], bool) and v.args[1] >= 0:
+        c = _bv_components(_unfz1(v.args[0]), memo)
+        if c is None:
+            return None
+        k = v.args[1]
+        out = []
+        for atom, mask, r, l in c:
+            if op == "shl":
+                out.append((atom, mask, r, l + k))
+            elif l >= k:
+                out.append((atom, mask, r, l - k))
+            else:
+                out.append((atom, mask, r + (k - l), 0))
+        return out
+    if op == "floordiv" and _pow2(v.args[1]):
+        return _bv_components(T("shr", (v.args[0], v.args[1].bit_length() - 1), INT), memo)
+    if op == "mul" and len(v.args) == 2 and _pow2(v.args[0]):
+        return _bv_components(T("shl", (v.args[1], v.args[0].bit_length() - 1), INT), memo)
+    if op == "band" and len(v.args) == 2 and any(isinstance(x, int) and not isinstance(x, bool) for x in v.args):
+        m = [x for x in v.args if isinstance(x, int)][0]
+        y = [x for x in v.args if not (isinstance(x, int) and x is m)]
+        y = _unfz1(y[0]) if y else m
+        if _is_byte(y):
+            return [(bvnorm(y, memo), m & 0xFF, 0, 0)]
+    return [(bvnorm_inside(v, memo), None, 0, 0)]
+
+
+def bvnorm_inside(v, memo):
+    """Normalise the arguments of an atom (an atom may contain bit expressions, e.g. i2b(<bits>, n))."""
+    if not isinstance(v, T):
+        return v
+    args = tuple(bvnorm(_unfz1(a), memo) if isinstance(a, (T, tuple, list)) else a for a in v.args)
+    try:
+        return renorm(v.op, args, v.ty)
+    except Exception:
+        return T(v.op, args, v.ty)
+
+
+def bvnorm(v, memo=None):
+    """Canonical form for expressions built from | << >> (and // 2^k, * 2^k, `byte & mask`): `(a << 11 | b) << 11 | c`,
+    `a << 22 | b << 11 | c` and the same with the operands in another order become one term. Other terms are rebuilt
+    with their arguments normalised. Used only for comparisons (bveq); constructors stay as they are."""
+    memo = {} if memo is None else memo
+    if isinstance(v, (list, tuple)) and not isinstance(v, T):
+        return type(v)(bvnorm(x, memo) for x in v) if not (isinstance(v, tuple) and v and isinstance(v[0], str) and v[0].startswith("#")) else \
+            (v[0],) + tuple(bvnorm(x, memo) for x in v[1:])
+    if isinstance(v, dict):
+        return {k: bvnorm(x, memo) for k, x in v.items()}
+    if not isinstance(v, T):
+        return v
+    if id(v) in memo:
+        return memo[id(v)]
+    r = None
+    if v.op in ("bor", "shl", "shr") or (v.op == "floordiv" and _pow2(v.args[1])) or (v.op == "mul" and len(v.args) == 2 and _pow2(v.args[0])):
+        comps = _bv_components(v, memo)
+        if comps is not None:
+            const = 0
+            items = []
+            for atom, mask, rr, ll in comps:
+                if isinstance(atom, int) and not isinstance(atom, bool):
+                    x = atom if mask is None else atom & mask
+                    const |= (x >> rr) << ll
+                    continue
+                if mask is not None and (mask | ((1 << rr) - 1)) & 0xFF == 0xFF:
+                    mask = None  # every bit that survives the right shift is kept by the mask
+                items.append((show(atom), atom, mask, rr, ll))
+            items.sort(key=lambda t: (t[0], t[3], t[4], -1 if t[2] is None else t[2]))
+            seen = []
+            for it in items:
+                if not seen or seen[-1][0] != it[0] or seen[-1][2:] != it[2:]:
+                    seen.append(it)
+            args = tuple(("#c", it[1], it[2], it[3], it[4]) for it in seen)
+            if not args:
+                r = const
+            elif len(args) == 1 and const == 0 and args[0][2] is None and args[0][3] == 0 and args[0][4] == 0:
+                r = args[0][1]
+            else:
+                r = T("bvor", (const,) + args, INT)
+    elif v.op == "mod" and len(v.args) == 2 and _pow2(v.args[1]):
+        r = bvnorm(T("band", (v.args[1] - 1, v.args[0]), INT), memo)
+    elif v.op == "band" and len(v.args) == 2:
+        m = [x for x in v.args if isinstance(x, int) and not isinstance(x, bool)]
+        if m:
+            y = [x for x in v.args if x is not m[0]]
+            y = bvnorm(_unfz1(y[0]), memo) if y else m[0]
+            # low-bit mask over an OR of shifted components: drop the components shifted above the mask
+            if isinstance(y, T) and y.op == "bvor" and m[0] >= 0:
+                keep = tuple(c for c in y.args[1:] if c[4] == 0 or (1 << c[4]) <= m[0])
+                y = T("bvor", (y.args[0],) + keep, INT) if keep != y.args[1:] else y
+            r = T("band", (m[0], y), INT)
+    if r is None:
+        r = bvnorm_inside(v, memo)
+    memo[id(v)] = r
+    return r
+
+
+def bveq(a, b):
+    if veq(a, b):
+        return True
+    return veq(freeze(bvnorm(a)), freeze(bvnorm(b)))
